@@ -1,8 +1,13 @@
 #!/bin/sh
 # usage: tools/try_patch.sh <label> <patchfile> <check id> [tier] [extra check args...]
-label=$1; pf=$2; pid=$3; tier=${4:-quick}; [ $# -ge 4 ] && shift 4 || shift $#
-cd /repo && git apply $pf || { echo "APPLY-FAILED $label"; exit 3; }
-cd /verif && timeout 1500 ./check $pid --tier $tier --no-evidence "$@" > /tmp/try_${label}_$pid.log 2>&1; rc=$?
-cd /repo && git checkout -- .
+# Exploratory run of a check against a seeded change WITHOUT touching /repo: the patch is applied to a scratch copy of the package
+# that is put in front of /repo on PYTHONPATH (replay subprocesses inherit it).  tools/try_seed.sh is the prescribed in-place variant.
+label=$1; pf=$2; pid=$3; tier=${4:-quick}
+[ $# -ge 4 ] && shift 4 || shift $#
+d=/tmp/try_$label; rm -rf $d; mkdir -p $d && cp -r /repo/tensorly $d/ && find $d -name __pycache__ -prune -exec rm -rf {} + 
+( cd $d && git apply $pf ) || { echo "APPLY-FAILED $label"; rm -rf $d; exit 3; }
+cd /verif && sh ./setup.sh >/dev/null 2>&1
+PYTHONPATH=$d PYTHONDONTWRITEBYTECODE=1 PYTHONWARNINGS=ignore timeout 1500 .venv/bin/python -u -m vt.main $pid --tier $tier --no-evidence "$@" > /tmp/try_${label}_$pid.log 2>&1; rc=$?
+rm -rf $d
 nv=$(grep -c "^VIOLATION" /tmp/try_${label}_$pid.log); ni=$(grep -c "^INCONCLUSIVE" /tmp/try_${label}_$pid.log)
 echo "$label check=$pid tier=$tier exit=$rc violations=$nv inconclusive=$ni :: $(grep '^VIOLATION' /tmp/try_${label}_$pid.log | head -2 | sed -E 's/.*config=//' | cut -c1-150 | tr '\n' '|')"
